@@ -5,7 +5,7 @@
 //! Sub-streams (3rd argument selects one): field, ext, over (over-limbed hand-written configs),
 //! toy (toy curves, exhaustive), ship (shipped curves).
 #![allow(dead_code, deprecated, non_camel_case_types)]
-use ark_ec::{short_weierstrass as sw, twisted_edwards as te, AffineRepr, CurveGroup};
+use ark_ec::{short_weierstrass as sw, twisted_edwards as te};
 use ark_ff::{Field, One, PrimeField, Zero};
 use ark_serialize::{CanonicalSerializeWithFlags, Compress, EmptyFlags, Validate};
 use arkharness::serial_common::*;
@@ -162,8 +162,8 @@ fn toy_sw<P: sw::SWCurveConfig>(out: &mut Out, name: &str, order: u64, th: bool)
     let fd = fdesc::<P::BaseField>("_");
     let mut pts = vec![sw::Affine::<P>::identity()];
     pts.extend(sw_all_points::<P>());
-    let two = P::BaseField::from(2u64);
-    let lam: Vec<P::BaseField> = if th || pts.len() < 40 { vec![P::BaseField::one(), two, -P::BaseField::one(), P::BaseField::from(5u64)] } else { vec![two] };
+    let two = small::<P::BaseField>(2);
+    let lam: Vec<P::BaseField> = if th || pts.len() < 40 { vec![P::BaseField::one(), two, -P::BaseField::one(), small::<P::BaseField>(5)] } else { vec![two] };
     sw_points_ops::<P>(out, &fd, &pts, &lam, true);
     let off: Vec<_> = pts.iter().cloned().take(if th { 400 } else { 24 }).collect();
     sw_offcurve_ops::<P>(out, &fd, &off);
@@ -172,8 +172,8 @@ fn toy_te<P: te::TECurveConfig>(out: &mut Out, name: &str, order: u64, th: bool)
     check_te::<P>(name, order);
     let fd = fdesc::<P::BaseField>("_");
     let pts = te_all_points::<P>();
-    let two = P::BaseField::from(2u64);
-    let lam: Vec<P::BaseField> = if th || pts.len() < 40 { vec![P::BaseField::one(), two, -P::BaseField::one(), P::BaseField::from(5u64)] } else { vec![two] };
+    let two = small::<P::BaseField>(2);
+    let lam: Vec<P::BaseField> = if th || pts.len() < 40 { vec![P::BaseField::one(), two, -P::BaseField::one(), small::<P::BaseField>(5)] } else { vec![two] };
     te_points_ops::<P>(out, &fd, &pts, &lam);
     let off: Vec<_> = pts.iter().cloned().take(if th { 400 } else { 24 }).collect();
     te_offcurve_ops::<P>(out, &fd, &off);
@@ -198,6 +198,7 @@ fn ship_te<P: te::TECurveConfig>(out: &mut Out, rng: &mut Rng, th: bool) where P
 fn main() {
     let a = arkharness::args();
     let th = a.thorough;
+    if std::env::var("ARK_DEBUG").is_ok() { let _ = std::panic::take_hook(); }
     let mut rng = Rng::new(a.seed);
     let mut out = Out::new();
     let want = |s: &str| a.only.as_deref().map(|o| o == s).unwrap_or(true);
